@@ -202,9 +202,16 @@ class Panoptica_Evaluator(SupportsConfig):
         if single_instance_mode and not isinstance(
             processing_pair, MatchedInstancePair
         ):
+            prediction_arr_grouped = processing_pair_grouped.prediction_arr
+            reference_arr_grouped = processing_pair_grouped.reference_arr
+            if not np.issubdtype(prediction_arr_grouped.dtype, np.unsignedinteger):
+                # semantic maps may be signed, matched instance maps must be unsigned
+                unsigned_dtype = np.dtype(f"uint{prediction_arr_grouped.dtype.itemsize * 8}")
+                prediction_arr_grouped = prediction_arr_grouped.astype(unsigned_dtype)
+                reference_arr_grouped = reference_arr_grouped.astype(unsigned_dtype)
             processing_pair_grouped = MatchedInstancePair(
-                prediction_arr=processing_pair_grouped.prediction_arr,
-                reference_arr=processing_pair_grouped.reference_arr,
+                prediction_arr=prediction_arr_grouped,
+                reference_arr=reference_arr_grouped,
             )
             decision_threshold = 0.0
 
